@@ -225,6 +225,29 @@ pub fn run(ctx: &Ctx) -> i32 {
         }
     });
 
+    // ---- tall and wide files: line numbers beyond 16 and 17 bits, offsets beyond 24 bits, very long lines
+    let ntall = ctx.tier.pick(6u64, 24u64);
+    run_workload(ctx, &mut acc, "tall-files", ntall, |k, rng, acc| {
+        let lines_before = [40_000usize, 66_000, 70_000, 131_100, 200_000, 300_000][(k % 6) as usize];
+        let mut t = String::from("pragma solidity ^0.8.0;\n");
+        let filler = match k % 3 {
+            0 => "\n".to_string(),
+            1 => "// é filler comment with code-like text: x++; a >= b\n".to_string(),
+            _ => format!("{}\n", " ".repeat(rng.range(0, 200))),
+        };
+        for _ in 0..lines_before {
+            t.push_str(&filler);
+        }
+        t.push_str("contract Tall {\n    uint256 x;\n    function f(uint256 a, uint256 b) public returns (uint256) {\n        require(a >= b && b != 0, \"a string that is quite a bit longer than thirty-two bytes\");\n        x = a / b * 2;\n        return x++;\n    }\n}\n");
+        if k % 2 == 1 {
+            // one very long line before the contract
+            let long = format!("/* {} */\n", "long ".repeat(40_000));
+            t = t.replacen("contract Tall", &format!("{}contract Tall", long), 1);
+        }
+        acc.cov(&format!("tall-files:{}-lines", lines_before));
+        check_plumbing(&format!("tall#{}", k), "tall", &t, acc);
+    });
+
     // ---- monitor 3: which construct.  In the one-token-per-line layout a line names a token; every MUST construct of the
     // spec tables (DESIGN.md section 8) must be reported on the line of (one of) its designated first token(s).
     let nw = ctx.tier.pick(400u64, 6000u64);
